@@ -87,17 +87,6 @@ func C18(c *Case) *Result {
 	res.Cfg = fmt.Sprintf("K%d/%v", K, cfgs)
 	res.Render["instances"] = cfgs
 
-	// each instance alone (no simulation)
-	for i, in := range insts {
-		alone, err := plainCompress(in.cfg, in.data)
-		if err != nil {
-			res.Verdict = "skip"
-			res.Detail = fmt.Sprintf("instance %d does not compress alone (C01's business): %v", i, err)
-			return res
-		}
-		in.alone = append([]byte(nil), alone...)
-	}
-
 	mon := model.NewHandoffMonitor()
 	var hooks sim.Hooks
 	monitorHooks(mon, &hooks)
@@ -124,6 +113,17 @@ func C18(c *Case) *Result {
 	res.absorb(s)
 	res.NonTriv = true
 	res.Probes["instances"] += K
+	// each instance alone (no simulation), AFTER the concurrent run: state that the library
+	// initialises on first use must meet concurrent first users, not a sequential warm-up
+	for i, in := range insts {
+		alone, err := plainCompress(in.cfg, in.data)
+		if err != nil {
+			res.Verdict = "skip"
+			res.Detail = fmt.Sprintf("instance %d does not compress alone (C01's business): %v", i, err)
+			return res
+		}
+		in.alone = append([]byte(nil), alone...)
+	}
 	if res.Verdict == "fail" {
 		return res
 	}
